@@ -306,34 +306,18 @@ def int_range(ty):
     bits = 64 if ty.endswith("size") else int(ty[1:])
     return (-(1 << (bits - 1)), (1 << (bits - 1)) - 1) if ty[0] == "i" else (0, (1 << bits) - 1)
 
-def doc_short_long(doc):
-    """mirror of command/doc.rs for the doc comments we generate (single paragraph lines or paragraphs separated by blank lines)"""
+def doc_attrs(doc, as_one_attr=False):
+    """the values of the #[doc = "..."] attributes the generated source carries for this doc text: one per `///` line (a leading blank
+    before the text, nothing for an empty line), or ONE attribute with line feeds inside. What the help prints from them (summary,
+    description) is computed by the Coq model of command/doc.rs (Model/Doc.v), not here."""
     if doc is None:
-        return None, None
-    lines = [l[1:] if l.startswith(" ") else l for l in (" " + x if x else x for x in doc.split("\n"))]
-    # the generator writes `/// text`, so each attr value is " text"; one leading space is removed
-    lines = doc.split("\n")
-    while lines and not lines[0].strip():
-        lines.pop(0)
-    while lines and not lines[-1].strip():
-        lines.pop()
-    if not lines:
-        return None, None
-    def merge(ls): return " ".join(x.strip() for x in ls)
-    def remove_period(s):
-        return s[:-1] if s.endswith(".") and not s.endswith("..") else s
-    if any(not l.strip() for l in lines):
-        paras, cur = [], []
-        for l in lines:
-            if l.strip():
-                cur.append(l)
-            elif cur:
-                paras.append(merge(cur)); cur = []
-        if cur:
-            paras.append(merge(cur))
-        return remove_period(paras[0]), "\r\n\r\n".join(paras)
-    m = merge(lines)
-    return remove_period(m), m
+        return []
+    vals = [(" " + dl) if dl else "" for dl in doc.split("\n")]
+    return ["\n".join(vals)] if as_one_attr else vals
+
+def ser_doc(doc, as_one_attr=False):
+    at = doc_attrs(doc, as_one_attr)
+    return " ".join(["D%d" % len(at)] + [hx(a) for a in at])
 
 def ser_arg(a):
     if a["kind"] == "pos":
@@ -346,15 +330,13 @@ def ser_arg(a):
     elif d[0] == "s": ds = "s " + hx(d[1])
     elif d[0] == "v": ds = "v " + ser_value(d[1])
     else: ds = "v " + ser_value(TY_DEFAULT[a["ty"]])
-    sh, _ = doc_short_long(a.get("doc"))
-    return "%s %s %s %d %s %s %s" % (hx(a["field"]), kind, TY_CODE[a["ty"]], 1 if a["optional"] else 0, ds, hx(arg_valname(a)), opt_hex(sh))
+    return "%s %s %s %d %s %s %s" % (hx(a["field"]), kind, TY_CODE[a["ty"]], 1 if a["optional"] else 0, ds, hx(arg_valname(a)), ser_doc(a.get("doc")))
 
 def ser_enum(e):
     title = e["title"] if e.get("title") is not None else "Commands"
     parts = [hx(title), str(len(e["cmds"]))]
     for c in e["cmds"]:
-        sh, lg = doc_short_long(c.get("doc"))
-        parts += [hx(cmd_name(c)), opt_hex(sh), opt_hex(lg), str(len(c["args"]))]
+        parts += [hx(cmd_name(c)), ser_doc(c.get("doc"), bool(c.get("doc_attr"))), str(len(c["args"]))]
         for a in c["args"]:
             parts.append(ser_arg(a))
         if c["sub"] is None:
